@@ -289,6 +289,11 @@ pub fn run(tier: Tier) -> i32 {
         let w = super::c02::world(&desc);
         let mut model = RouterModel::new(&ctx, &w, CHECKS);
         model.cache_ops = true;
+        // quick tier: the variants that put a regex somewhere (dynamic path / host, lazy marker) plus r1a / r4a / r4b as
+        // literal neighbours; rules that differ only in header / time triggers add nothing to what caching can change
+        if tier == Tier::Quick {
+            model.insertable = (0..w.universe.len()).filter(|i| ["r1", "r2", "r3", "r4", "r7", "r8"].contains(&w.universe[*i].id.as_str())).collect();
+        }
         let st = explore(&ctx, &model, depth);
         states += st.states;
         transitions += st.transitions;
